@@ -11,6 +11,7 @@ import (
 
 	"verif/core"
 	"verif/model"
+	"verif/runner"
 	"verif/smfdec"
 	"verif/theory"
 )
@@ -471,6 +472,71 @@ func checkC16(c *core.Ctx) {
 		c.Nontrivial(fmt.Sprintf("devstdin%d", i))
 	})
 
+	// ---- lookups must not be confused by chords that spell the same digits (degree 17 + "" / degree 1 + "7")
+	c.Stream("collide", c.N(150, 3000), func(i int, r *rand.Rand) {
+		p := collisionPiece(r)
+		judgePitches(c, "collide", i, p, model.Flags{}, randWriteOpts(r))
+	})
+
+	// ---- a dictionary spread over more files than the process may hold open at once (one definition per file,
+	// 100-300 files, open-file limit 48): files are read one after the other, the limit must not matter
+	c.Stream("manyfiles", c.N(6, 60), func(i int, r *rand.Rand) {
+		f := genForest(r, fmt.Sprint(i%10))
+		var args []string
+		for _, a := range f.attrs {
+			args = append(args, "--attr", c.Scratch.File("a.yml", attrsYAML([]userAttr{a})))
+		}
+		for _, ch := range f.chords {
+			args = append(args, "--chord", c.Scratch.File("c.yml", chordsYAML([]userChord{ch})))
+		}
+		total := 100 + r.Intn(200)
+		for k := len(f.attrs) + len(f.chords); k < total; k++ {
+			if k%2 == 0 {
+				args = append(args, "--attr", c.Scratch.File("e.yml", attrsYAML([]userAttr{{Name: fmt.Sprintf("Zpad%d", k), Degree: fmt.Sprint(1 + k%13)}})))
+			} else {
+				args = append(args, "--chord", c.Scratch.File("e.yml", chordsYAML([]userChord{{Name: fmt.Sprintf("Zpadc%d", k), Display: fmt.Sprintf("zpadc%d", k), Attrs: []string{"Perfect1"}}})))
+			}
+		}
+		uc := f.chords[r.Intn(len(f.chords))]
+		want := f.semis[uc.Name]
+		for _, s := range want {
+			if 60+s > 127 {
+				return
+			}
+		}
+		p := model.Piece{Inst: []model.Instance{{Chord: &model.ChordSpec{Deg: theory.Interval{N: 1, Q: theory.Perfect}, Symbol: uc.Display}, Values: one()}}}
+		res := c.Crd.Run(runner.Opt{Stdin: p.YAML(model.YAMLStyle{}), NoFile: 48}, append([]string{"write"}, args...)...)
+		c.Eval(1)
+		if infra(c, res) {
+			return
+		}
+		det := map[string]any{"files": total, "open_file_limit": 48, "stderr": short(string(res.Stderr), 300), "exit": res.Exit}
+		if a := abnormal(res); a != "" || !res.OK() {
+			c.Violate("manyfiles", i, "manyfiles:refused", fmt.Sprintf("a consistent dictionary in %d files cannot be loaded under an open-file limit of 48 %s", total, a), det)
+			return
+		}
+		file, derr := decodeSMF(res.Stdout)
+		if file == nil {
+			c.Violate("manyfiles", i, "manyfiles:decode", derr, det)
+			return
+		}
+		var got []int
+		for _, e := range mergedEvents(file) {
+			if e.Kind == smfdec.NoteOn {
+				got = append(got, e.Key())
+			}
+		}
+		exp := []int{48}
+		for _, s := range want {
+			exp = append(exp, 60+s)
+		}
+		if !eqInts(sortedInts(got), sortedInts(exp)) {
+			c.Violate("manyfiles", i, "manyfiles:notes", fmt.Sprintf("dictionary in %d files: chord %q sounds %v, defined as %v", total, uc.Display, sortedInts(got), sortedInts(exp)), det)
+			return
+		}
+		c.Nontrivial(fmt.Sprintf("manyfiles%d", i))
+	})
+
 	// ---- user dictionaries
 	c.Stream("forest", c.N(600, 15000), func(i int, r *rand.Rand) { userForestCase(c, i, r) })
 	c.Stream("broken", c.N(600, 15000), func(i int, r *rand.Rand) { brokenDictCase(c, i, r) })
@@ -622,9 +688,14 @@ func writeDictFiles(c *core.Ctx, r *rand.Rand, f forest) []string {
 		}
 		return append(cuts, n)
 	}
+	// what a definition file may start with before its list: comments, a byte order mark, a directive, a document marker
+	preamble := func(b []byte) []byte {
+		pre := []string{"", "", "", "# definitions\n", "\ufeff", "%YAML 1.1\n---\n", "---\n", "\n\n", "# a comment\n---\n# another\n", "\ufeff# bom and comment\n"}[r.Intn(10)]
+		return append([]byte(pre), b...)
+	}
 	ac := split(len(f.attrs))
 	for j := 0; j+1 < len(ac); j++ {
-		args = append(args, "--attr", c.Scratch.File("attr.yml", attrsYAML(f.attrs[ac[j]:ac[j+1]])))
+		args = append(args, "--attr", c.Scratch.File("attr.yml", preamble(attrsYAML(f.attrs[ac[j]:ac[j+1]]))))
 	}
 	// the dictionary is the union of all files: names and displays are unique among the user's chords, so
 	// neither the order of the definitions nor the order of the files matters (children before parents,
@@ -641,7 +712,7 @@ func writeDictFiles(c *core.Ctx, r *rand.Rand, f forest) []string {
 	cc := split(len(chords))
 	var files []string
 	for j := 0; j+1 < len(cc); j++ {
-		files = append(files, c.Scratch.File("chord.yml", chordsYAML(chords[cc[j]:cc[j+1]])))
+		files = append(files, c.Scratch.File("chord.yml", preamble(chordsYAML(chords[cc[j]:cc[j+1]]))))
 	}
 	if len(files) > 1 && r.Intn(3) == 0 {
 		args = append(args, "--chord", strings.Join(files, ","))
